@@ -101,6 +101,7 @@ def _roundtrip(ctx, pm, rm, name, g, top, want, label):
         ctx.fail(f'{label}: encoded text does not decode ({type(e).__name__}) under {name}', observed=s)
         return False
     ctx.transitions += 1
+    ctx.validated += 1     # `want` is the reference model's prediction of the decoded content
     if g2.top != top:
         ctx.fail(f'{label}: decoded top is not the requested top under {name}', expected=top, observed=[g2.top, s])
         return False
